@@ -15,6 +15,7 @@ RULE = ('widths 1..3: EVERY non-empty key set, every insertion order for sets of
         'HashMap.from_cell, Slice.load_hashmap, store_dict -> load_dict / preload_dict: same pairs, ascending iteration order; empty map <-> None; '
         'keys 2^w, 2^w+1, -1, -2^w must be refused and leave the map unchanged. non-trivial = at least 2 keys; states = distinct (width, key set, '
         'value kind); transitions = serialise/parse calls; traces = parsed maps compared with the reference map')
+RULE += ' Fifth session: value functions that are not injective (constant, low bit(s) of the key; for widths <= 3 EVERY assignment of two values to the keys): equal sub-tries are equal cells; HashMap.from_cell(cell).serialize() is the cell again.'
 LEVEL_TEXT = ('Bounded-exhaustive: all key sets of widths 1..4 (thorough; quick a declared subset of width 4), all insertion orders of small sets, '
               'and divergence-pattern families for wide keys are serialised and parsed back through every entry point with the real code; results '
               'are compared with the input map and, for the produced cell, with an independent Patricia-trie parser.')
